@@ -816,18 +816,18 @@ class Gen:
     # -- ill-typed / invalid (C14, C11) ---------------------------------------------------
     BAD_VALUES = {
         "time": [5, 1.5, True, "2020-01-01T00:00:00", None, [1],
-                 {"$": "bytes", "v": "t"}, {"a": 1}],
-        "measurement": [5, 1.5, True, None, ["m"], {"$": "bytes", "v": "m"},
+                 {"$tfsim$": "bytes", "v": "t"}, {"a": 1}],
+        "measurement": [5, 1.5, True, None, ["m"], {"$tfsim$": "bytes", "v": "m"},
                         {"a": 1}],
-        "tag_key": [5, 1.5, True, None, {"$": "bytes", "v": "k"},
-                    {"$": "tuple", "v": ["a"]}],
+        "tag_key": [5, 1.5, True, None, {"$tfsim$": "bytes", "v": "k"},
+                    {"$tfsim$": "tuple", "v": ["a"]}],
         "tag_value": [5, 1.5, True, False, ["x"], {"a": "b"},
-                      {"$": "bytes", "v": "v"}],
-        "field_key": [5, 1.5, True, None, {"$": "bytes", "v": "k"}],
+                      {"$tfsim$": "bytes", "v": "v"}],
+        "field_key": [5, 1.5, True, None, {"$tfsim$": "bytes", "v": "k"}],
         "field_value": ["1", "x", True, False, [1], {"a": 1},
-                        {"$": "bytes", "v": "1"}, ""],
-        "tags": [5, "a", ["a", "b"], None, {"$": "set", "v": ["a"]}],
-        "fields": [5, "a", ["a", 1], None, {"$": "set", "v": ["a"]}],
+                        {"$tfsim$": "bytes", "v": "1"}, ""],
+        "tags": [5, "a", ["a", "b"], None, {"$tfsim$": "set", "v": ["a"]}],
+        "fields": [5, "a", ["a", 1], None, {"$tfsim$": "set", "v": ["a"]}],
     }
 
     def bad_container(self, slot):
@@ -836,16 +836,16 @@ class Gen:
         a = self.alpha
         v = r.choice(self.BAD_VALUES[slot])
         if slot == "tag_key":
-            return "tags", {"$": "pairs", "v": [[v, r.choice(["x", None])]]}
+            return "tags", {"$tfsim$": "pairs", "v": [[v, r.choice(["x", None])]]}
         if slot == "tag_value":
             base = [[k, x] for k, x in self.gen_tags().items()]
-            return "tags", {"$": "pairs",
+            return "tags", {"$tfsim$": "pairs",
                             "v": base + [[r.choice(a["tk"]), v]]}
         if slot == "field_key":
-            return "fields", {"$": "pairs", "v": [[v, r.choice([1, None])]]}
+            return "fields", {"$tfsim$": "pairs", "v": [[v, r.choice([1, None])]]}
         if slot == "field_value":
             base = [[k, x] for k, x in self.gen_fields().items()]
-            return "fields", {"$": "pairs",
+            return "fields", {"$tfsim$": "pairs",
                               "v": base + [[r.choice(a["fk"]), v]]}
         if slot in ("tags", "fields"):
             return slot, v
@@ -960,7 +960,7 @@ class Gen:
         if c == "bad_unset":
             which = r.choice(["unset_tags", "unset_fields"])
             op = {"op": "update_all", "spec": {which: r.choice(
-                [5, [1, 2], ["a", 5], {"$": "bytes", "v": "a"}])},
+                [5, [1, 2], ["a", 5], {"$tfsim$": "bytes", "v": "a"}])},
                 "expect_raise": "bad"}
             return self.route(op)
         if c == "bad_select":
